@@ -62,6 +62,49 @@ def pool(names, full=True):
     return b
 
 
+HOSTILE = ['compute/admin', 'tier+1', 'net:*', 'owner%project', 'a,b', 'x=y', 'é/ü', 'svc.get-all', 'q?', 'w|z', '~t', 'k&l']
+
+
+def _rename_tree(t, m):
+    if t['k'] == 'rule':
+        return dict(t, name=m.get(t['name'], t['name']))
+    if t['k'] == 'not':
+        return dict(t, a=_rename_tree(t['a'], m))
+    if t['k'] in ('and', 'or'):
+        return dict(t, **{'as': [_rename_tree(x, m) for x in t['as']]})
+    return t
+
+
+def hostile_names(rules, rng):
+    """the same graph over names that hold punctuation (a rule name is any string without blanks or
+    parentheses); undefined references are spelled as a defined name plus a suffix, defined names may
+    be prefixes of one another"""
+    defined = [n for n, _ in rules]
+    refs = set()
+
+    def walk(t):
+        if t['k'] == 'rule':
+            refs.add(t['name'])
+        elif t['k'] == 'not':
+            walk(t['a'])
+        elif t['k'] in ('and', 'or'):
+            for x in t['as']:
+                walk(x)
+    for _, t in rules:
+        walk(t)
+    pool_ = rng.sample(HOSTILE, len(HOSTILE))
+    m = {}
+    for i, n in enumerate(defined):
+        m[n] = pool_[i % len(pool_)] if i else rng.choice(['compute', 'tier', 'net:', 'owner'])
+    if len(defined) > 1 and rng.random() < 0.5:
+        m[defined[1]] = m[defined[0]] + rng.choice(['/admin', '+1', '*', '%project'])      # a defined name extends another
+    for n in sorted(refs - set(defined)):
+        m[n] = m[rng.choice(defined)] + rng.choice(['/legacy', '+', '!x', '%', '#'])
+    if len(set(m.values())) != len(m):
+        return rules                      # the drawn spellings collide: keep the plain names
+    return [(m[n], _rename_tree(t, m)) for n, t in rules]
+
+
 def late_enforcer(rules, rng):
     """a file-backed enforcer that has already loaded its policy file when part of the rule set
     arrives: the first rules come from the file, the rest are defaults registered afterwards"""
@@ -269,10 +312,15 @@ def run(ctx):
         cases.append(check_case(rules, rng))
     n_enum = len(cases)
     for i in range(300 if q else 8000):
-        cases.append(check_case(rand_graph(rng, rng.randint(2, 6)), rng, late=rng.random() < 0.3))
+        g = rand_graph(rng, rng.randint(2, 6))
+        if rng.random() < 0.35:
+            g = hostile_names(g, rng)
+        cases.append(check_case(g, rng, late=rng.random() < 0.3))
     n_check = len(cases)
     for i in range(120 if q else 2500):
         rules = rand_graph(rng, rng.randint(1, 4)) if rng.random() < 0.7 else [(names[j], p[b]) for j, b in enumerate(rng.choice(combos))]
+        if rng.random() < 0.3:
+            rules = hostile_names(rules, rng)
         r = rng.random()
         # part of the graph may live in registered defaults that the file does not override
         od = []
